@@ -137,11 +137,12 @@ def implementation(args):
 
     # (1) every prefix x named unit x exponent (sampled down to the budget)
     cases = [(p, u, e) for p in [None] + prefixes for u in units for e in (1, -1, 2, -2, 3, -3)]
+    big = [(None, u, e) for u in rng.sample(units, min(40, len(units))) for e in (10, 12, -21, 120)]   # multi-digit exponents
     if len(cases) > budget:
         keep = set(rng.sample(range(len(cases)), budget))
         # always keep exponent 1 of every TLC collision
         cases = [c for i, c in enumerate(cases) if i in keep] + [(prefixes[p - 1], units[u - 1], 1) for (p, u) in col if p > 0]
-    for p, u, e in cases:
+    for p, u, e in cases + big:
         unit = (u if p is None else p * u) ** e
         roundtrip(unit, "(%s%s)**%d" % ((p.name or p.symbol) + "*" if p else "", u.name or u.symbol, e), p.symbol if p else "", u.symbol)
 
@@ -158,7 +159,7 @@ def implementation(args):
     simple = [u for u in units if u.symbol.isalpha() and u.symbol.isascii()]
     nspell = 0
     for _ in range(budget // 8):
-        terms = [(rng.choice(simple), rng.choice([1, 2, -1, -2, 3])) for _ in range(rng.randint(1, 3))]
+        terms = [(rng.choice(simple), rng.choice([1, 2, -1, -2, 3, 12, -10])) for _ in range(rng.randint(1, 3))]
         expected = m.One
         for u, e in terms:
             expected = expected * u ** e
@@ -188,6 +189,16 @@ def implementation(args):
                 v, r = same_scale(m, got, expected)
                 if v != "equal-unit":
                     add("spelling:different-unit", "%r parses to %s, other spellings denote %s" % (text, got, expected))
+            # the same spelling behind a magnitude must denote magnitude * that unit
+            for mtext, mval in (("5", 5), ("2.5", 2.5)):
+                try:
+                    q = Quantity.parse(mtext + " " + text)
+                except Exception as ex:
+                    add("spelling:quantity-rejected:%s" % type(ex).__name__, "Quantity.parse(%r) raised %s although Unit.parse accepts the unit text" % (mtext + " " + text, type(ex).__name__))
+                    continue
+                vq, rq = same_scale(m, q.unit, expected)
+                if q.magnitude != mval or type(q.magnitude) is not type(mval) or vq not in ("identical", "equal-unit"):
+                    add("spelling:quantity-differs", "Quantity.parse(%r) gave %r, expected %s %s" % (mtext + " " + text, q, mval, expected))
     out["spellings"] = nspell
 
     # (4) quantities: equal quantity back
